@@ -581,15 +581,25 @@ namespace
       }
       if(ats.empty()) return;
       // every third time among the size attributes only (the declared counts everything else is checked against)
-      if(simfs::pick(3, "attr_sizes_only") == 0)
+      // ... and every third time among the numeric attributes of the analytic charts, with the values that are wrong for them
+      const size_t focus = simfs::pick(3, "attr_sizes_only");
+      bool chart_focus = false;
+      if(focus == 0)
       {
         std::vector<At> sz;
         for(const At& x : ats) if(s.compare(x.beg, 5, "size=") == 0) sz.push_back(x);
         if(!sz.empty()) ats.swap(sz);
       }
+      else if(focus == 1)
+      {
+        std::vector<At> ch;
+        for(const At& x : ats) if(s.compare(x.beg, 9, "midpoint=") == 0 || s.compare(x.beg, 7, "radius=") == 0 || s.compare(x.beg, 7, "domain=") == 0) ch.push_back(x);
+        if(!ch.empty()) { ats.swap(ch); chart_focus = true; }
+      }
       const At a = ats[simfs::pick(ats.size(), "attr")];
       static const char* vals[15] = {"", "0", "1", "2", "7", "abc", "-1", "1 1", "0 0 0 0 0 0 0", "1.5", "x:y:z:w", " ", "-1 4", "2 -3", "-2 -2 -2"};
-      const size_t op = simfs::pick(17, "attr_op");
+      static const size_t chart_ops[4] = {8, 6, 5, 0};
+      const size_t op = chart_focus ? chart_ops[simfs::pick(4, "attr_op_chart")] : simfs::pick(17, "attr_op");
       const std::string name = s.substr(a.beg, a.vbeg - 2 - a.beg);
       if(op == 15) s.erase(a.beg, a.vend + 1 - a.beg);
       else if(op == 16) s.insert(a.vend + 1, " " + s.substr(a.beg, a.vend + 1 - a.beg));
